@@ -95,6 +95,34 @@ fn main() {
                     }
                     split_blocks(&out)
                 }
+                "deep" => {
+                    // executed one case at a time, each trace flushed at once, so that a process abort
+                    // (stack overflow cannot be caught) leaves the culprit identifiable
+                    let mut cs = Vec::new();
+                    gen_hist::gen_deep(&["k256", "ed"], &mut rng, thorough, &mut cs);
+                    let mut scripts = String::new();
+                    for c in &cs {
+                        scripts.push_str(&c.script());
+                    }
+                    std::fs::write(format!("{prefix}.cases"), scripts).expect("write cases");
+                    let mut f = std::fs::File::create(format!("{prefix}.0.trace")).expect("create trace");
+                    for c in &cs {
+                        let c2 = c.clone();
+                        // a thread with an ordinary 2 MiB stack, like any thread of a user of the library
+                        let h = std::thread::Builder::new()
+                            .stack_size(2 * 1024 * 1024)
+                            .spawn(move || {
+                                let mut s = String::new();
+                                exec_any(&c2, &mut s, false);
+                                s
+                            })
+                            .expect("spawn");
+                        let s = h.join().unwrap_or_default();
+                        f.write_all(s.as_bytes()).unwrap();
+                        f.flush().unwrap();
+                    }
+                    return;
+                }
                 "hist" | "size" | "acc" | "eq" => {
                     let mut cs = Vec::new();
                     match fam {
